@@ -25,6 +25,15 @@
     * `mutation_root_slots_in_document_order` — root slot j is only ever set with key kⱼ.
   Missing for the full statement: "no promise is outstanding when a root field returns", which
   is false for the code (F-11a).
+
+  The repair (repo-patches/C11/01-fix-*.patch, `settleSerialPromises`: after `wait` the executor
+  keeps calling the idle handler until every promise returned beneath the current root field has
+  been received) is the model's `rq.settle = true` (`ApiFu.C02.waitSettle`). For it the full
+  statement is proved:
+
+    * `mutation_log_serial` — with `settle`, the log is log₁ ++ … ++ logₙ with every event of logᵢ
+      under kᵢ (StrictSerial), for every mutation, async subset and schedule;
+    * `f11a_repaired` — the F-11a request with `settle`: `a.x` is fulfilled before `b` starts.
 -/
 import ApiFu.C11.Lemmas
 
@@ -39,11 +48,11 @@ open ApiFu.C02
     field — when the block began. -/
 theorem mutation_log_serial_partial (rq : Request) (hm : rq.mutation = true) :
     SerialLog (rootKeys rq.fields) [] (events (execute rq).2.log) := by
-  obtain ⟨l, hl, hs, _⟩ := execSerial_serial (Field.invocationsL rq.fields + 1) rq.fields rq.fields.length 0
+  obtain ⟨l, hl, hs, _⟩ := execSerial_serial rq.settle (Field.invocationsL rq.fields + 1) rq.fields rq.fields.length 0
     rq.sched {}
   unfold execute
   simp only [hm, if_true]
-  rcases hx : execSerial (Field.invocationsL rq.fields + 1) rq.fields rq.fields.length 0 rq.sched {} with ⟨w, s', S⟩
+  rcases hx : execSerial rq.settle (Field.invocationsL rq.fields + 1) rq.fields rq.fields.length 0 rq.sched {} with ⟨w, s', S⟩
   rw [hx] at hl
   simp only at hl
   have hlog : S.log = l := by simpa using hl
@@ -87,11 +96,11 @@ theorem mutation_starts_strictly_serial (rq : Request) (hm : rq.mutation = true)
     the response key of root field `j`: the data lists the root keys in document order. -/
 theorem mutation_root_slots_in_document_order (rq : Request) (hm : rq.mutation = true) :
     RootWrites 0 (rootKeys rq.fields) (execute rq).2.log := by
-  obtain ⟨l, hl, _, hr⟩ := execSerial_serial (Field.invocationsL rq.fields + 1) rq.fields rq.fields.length 0
+  obtain ⟨l, hl, _, hr, _⟩ := execSerial_serial rq.settle (Field.invocationsL rq.fields + 1) rq.fields rq.fields.length 0
     rq.sched {}
   unfold execute
   simp only [hm, if_true]
-  rcases hx : execSerial (Field.invocationsL rq.fields + 1) rq.fields rq.fields.length 0 rq.sched {} with ⟨w, s', S⟩
+  rcases hx : execSerial rq.settle (Field.invocationsL rq.fields + 1) rq.fields rq.fields.length 0 rq.sched {} with ⟨w, s', S⟩
   rw [hx] at hl
   simp only at hl
   have hlog : S.log = l := by simpa using hl
@@ -109,7 +118,41 @@ theorem mutation_root_slots_in_document_order (rq : Request) (hm : rq.mutation =
   | stuck => simpa using key
   | outOfFuel => simpa using key
 
-/-! ### The full statement fails: F-11a
+/-- Projecting a strictly serial log to its resolver events keeps it strictly serial. -/
+theorem StrictSerial.events {keys : List String} {l : List Entry}
+    (h : StrictSerial keys l) : StrictSerial keys (ApiFu.C11.events l) := by
+  induction h with
+  | stop keys => simp only [ApiFu.C11.events]; exact StrictSerial.stop _
+  | block k keys blk rest hb _ ih =>
+    rw [events_append]
+    exact StrictSerial.block k keys _ _ (fun e he => hb e (mem_events e blk he)) ih
+
+/-- **mutation_log_serial (full statement, repaired executor).** With `settleSerialPromises`
+    (`rq.settle = true`), for every mutation, async subset and schedule the resolver event log is
+    block₁ ++ … ++ blockₙ, one block per root field in document order, and *every* event of blockᵢ
+    — resolver start or promise fulfilment — lies under kᵢ: nothing belonging to a root field
+    happens after that field has returned, nothing belonging to a later one before. -/
+theorem mutation_log_serial (rq : Request) (hm : rq.mutation = true) (hs : rq.settle = true) :
+    StrictSerial (rootKeys rq.fields) (events (execute rq).2.log) := by
+  obtain ⟨l, hl, _, _, hst⟩ := execSerial_serial rq.settle (Field.invocationsL rq.fields + 1) rq.fields
+    rq.fields.length 0 rq.sched {}
+  have hstrict := hst hs rfl
+  unfold execute
+  simp only [hm, if_true]
+  rcases hx : execSerial rq.settle (Field.invocationsL rq.fields + 1) rq.fields rq.fields.length 0 rq.sched {} with ⟨w, s', S⟩
+  rw [hx] at hl
+  simp only at hl
+  have hlog : S.log = l := by simpa using hl
+  have key : StrictSerial (rootKeys rq.fields) (events S.log) := by rw [hlog]; exact hstrict.events
+  cases w with
+  | done r =>
+    cases r with
+    | ok v => simpa using key
+    | err e => simp only [Store.push, events_append]; simpa [events] using key
+  | stuck => simpa using key
+  | outOfFuel => simpa using key
+
+/-! ### The full statement fails on the unrepaired executor: F-11a
 
 `mutation { a { x y } b }`, `a.x` answered through a promise, `a.y : Int!` resolving null
 synchronously, `b` answered through a promise: `a`'s selection set fails at once, the promise of
@@ -120,13 +163,24 @@ def f11a : Request :=
     fields := [.mk "a" false .sync none (.object [.mk "x" false .promise none (.scalar "1"),
                                                    .mk "y" true .sync none .null]),
                .mk "b" false .promise none (.scalar "2")],
-    sched := [] }
+    sched := [], settle := false }
 
 /-- The event log of the F-11a request: the fulfilment of `a.x` comes after the start of `b`. -/
 theorem f11a_events : events (execute f11a).2.log =
     [.start [.key "a"], .start [.key "a", .key "x"], .start [.key "a", .key "y"], .start [.key "b"],
      .fulfil [.key "a", .key "x"], .fulfil [.key "b"]] := by
-  simp [execute, f11a, execSerial, execField, catchIfNullable, mkMap, mkAfter, scanReady, mkMapOkValue, mkMapOkToAny,
+  simp [execute, f11a, execSerial, waitSettle, execField, catchIfNullable, mkMap, mkAfter, scanReady, mkMapOkValue, mkMapOkToAny,
+    Field.invocationsL, Comp.invocations, waitLoop, poll, pollAll, Store.push, idleRound, deliver, picks,
+    applyK, complete, execFields, nonNullWrap, applyMap, applyOk, Fut.weight, Fut.weightO, Comp.weight, events,
+    Val.isNull, List.replicate]
+
+/-- The F-11a request on the repaired executor: `a.x` is fulfilled (first idle round, driven by
+    `settleSerialPromises`) before `b` starts. -/
+theorem f11a_repaired : events (execute { f11a with settle := true }).2.log =
+    [.start [.key "a"], .start [.key "a", .key "x"], .start [.key "a", .key "y"],
+     .fulfil [.key "a", .key "x"], .start [.key "b"], .fulfil [.key "b"]] := by
+  simp [execute, f11a, execSerial, waitSettle, settleLoop, execField, catchIfNullable, mkMap, mkAfter, scanReady,
+    mkMapOkValue, mkMapOkToAny,
     Field.invocationsL, Comp.invocations, waitLoop, poll, pollAll, Store.push, idleRound, deliver, picks,
     applyK, complete, execFields, nonNullWrap, applyMap, applyOk, Fut.weight, Fut.weightO, Comp.weight, events,
     Val.isNull, List.replicate]
